@@ -45,9 +45,18 @@ def _seq_fields(node: ast.expr, selfname: str, env) -> Optional[List[Tuple[str, 
     """Field list of a list/tuple literal, or of a comprehension mapping str()/identity over one."""
     if isinstance(node, ast.Name) and node.id in env:
         return _seq_fields(env[node.id], selfname, env)
+    if isinstance(node, ast.Call) and isinstance(node.func, ast.Attribute) and isinstance(node.func.value, ast.Name) and node.func.value.id == selfname and not node.args and not node.keywords and env is not None and ("__method__:" + node.func.attr) in env:
+        # self._header(): a private method whose only return is a sequence of fields
+        return _seq_fields(env["__method__:" + node.func.attr], selfname, env)
     if isinstance(node, (ast.List, ast.Tuple)):
         out = []
         for e in node.elts:
+            if isinstance(e, ast.Starred):
+                inner = _seq_fields(e.value, selfname, env)
+                if inner is None:
+                    return None
+                out.extend(inner)
+                continue
             f = _strip(e, selfname, env)
             if f is None:
                 return None
@@ -193,6 +202,13 @@ def encode_template(analysis: Analysis):
     selfname = fn.args.args[0].arg
     env = dict(info.module.assigns)
     env.update(_local_assigns(fn))
+    # private methods of the class with a single `return <expr>`: usable as `self._x()` inside the template
+    if info.cls is not None:
+        for mname, m in info.cls.methods.items():
+            if mname.startswith("_") and not mname.startswith("__") and len(m.node.args.args) == 1:
+                mrets = [n for n in ast.walk(m.node) if isinstance(n, ast.Return)]
+                if len(mrets) == 1 and mrets[0].value is not None:
+                    env["__method__:" + mname] = mrets[0].value
     rets = [n for n in ast.walk(fn) if isinstance(n, ast.Return)]
     templ = None
     none_returns = 0
